@@ -356,7 +356,7 @@ func cmdTry(args []string) {
 	}
 	env := refEnv
 	env.MapPolicy = atoiDef(os.Getenv("SIM_MAP_POLICY"), env.MapPolicy)
-	res, d, dec := execute(&p, Opts{FixedSeed: true}, env, nil, 1, nil)
+	res, d, dec := execute(&p, Opts{FixedSeed: true}, env, nil, uint64(atoiDef(os.Getenv("SIM_SEED"), 1)), nil)
 	for _, x := range dec {
 		if x.C != 0 {
 			fmt.Printf("decision %+v\n", x)
